@@ -200,7 +200,12 @@ def main(argv):
     ap.add_argument("prop")
     ap.add_argument("--tier", default=None)
     ap.add_argument("--replay", default=None)
+    ap.add_argument("--no-evidence", action="store_true")
     a = ap.parse_args(argv)
+    if a.no_evidence:
+        global EVIDENCE, REPORTS
+        EVIDENCE = os.path.join(build.WORK, "audit-evidence", str(os.getpid()))
+        REPORTS = os.path.join(build.WORK, "audit-reports", str(os.getpid()))
     tier = os.environ.get("VERIF_TIER") or a.tier or "quick"
     if tier not in ("quick", "thorough"):
         tier = "quick"
